@@ -710,10 +710,14 @@ namespace bloch::compiler {
         while (check(TokenType::At)) {
             // TODO: refactor this, currently if invalid variable annotation is used, it will be
             // caught rather than thrown this is a rather hacky solution.
-            try {
-                annotations.push_back(parseVariableAnnotation());
-            } catch (BlochError error) {
+            // parseVariableAnnotation consumes the '@' before it rejects the name, so retrying
+            // with parseFunctionAnnotation after a failure would start one token too late.
+            // Decide on the annotation name instead (@shots stays rejected here: it is only
+            // valid on the top-level main function).
+            if (checkNext(TokenType::Quantum)) {
                 annotations.push_back(parseFunctionAnnotation());
+            } else {
+                annotations.push_back(parseVariableAnnotation());
             }
         }
 
